@@ -101,6 +101,8 @@ def body_model(case):
     if nd_ >= 6:
         import dreye as _dreye
         fd_ = 300.0 + np.arange(nd_) * 1.0
+        if (nf + ns + nd_) % 2 == 0:
+            fd_ = fd_.astype(np.int64)                  # whole-number wavelengths as an integer-typed array (np.arange(300, 300 + nd))
         sd_ = 300.0 + 0.37 + np.arange(nd_) * (1.0 + 0.013 * (nf + ns))
         with calling("register_system(domain=) / capture(domain=)"):
             est_o = _dreye.ReceptorEstimator(F, domain=fd_)
